@@ -12,6 +12,7 @@ skeleton item grammar (tuples):
   ("imp",)                                          import os
   ("doc", slot)                                     a string-constant expression statement
   ("kwfn", name_slot, [arg_slot...], [kwonly_slot...])  function with keyword-only args
+  ("fnb", name_slot, [arg_slot...], [body item...])     function whose body holds the given items (string constants, local classes)
 """
 import ast
 
@@ -40,6 +41,12 @@ def build_item(item, N):
     if k == "kwfn":
         return ast.FunctionDef(
             name=N[item[1]], args=_args([N[i] for i in item[2]], kwonly=[N[i] for i in item[3]]), body=[ast.Pass()],
+            decorator_list=[], returns=None, type_comment=None, type_params=[], lineno=1, col_offset=0,
+        )
+    if k == "fnb":
+        # function with a real body: item[3] is a list of body items (built recursively)
+        return ast.FunctionDef(
+            name=N[item[1]], args=_args([N[i] for i in item[2]]), body=[build_item(b, N) for b in item[3]] + [ast.Pass()],
             decorator_list=[], returns=None, type_comment=None, type_params=[], lineno=1, col_offset=0,
         )
     if k == "meth":
